@@ -60,6 +60,9 @@ pub enum Act {
     Assign(usize, usize),
     /// `n op= <literal>`
     OpAssign(usize, usize, usize),
+    /// `n op= <literal> op <literal>`: the right-hand side is an expression with the operator's own base
+    /// operator at its top, so that `x op= e` is `x = x op (e)` only if `op=` binds weaker than `op`
+    OpAssignCompound(usize, usize),
     /// `n = m`
     Copy(usize, usize),
     /// `n = c` with c never bound: a failing right-hand side
@@ -74,6 +77,20 @@ pub enum Act {
     CloneFromAndContinue,
 }
 
+/// Source and AST of `n op= l op r` with operands that make grouping observable in the stored value.
+fn compound_source(n: usize, o: usize) -> (String, Ast) {
+    let op = ASSIGN_BINOPS[o];
+    let (l, r) = match op {
+        BinOp::And => (RV::Bool(true), RV::Bool(false)),
+        BinOp::Or => (RV::Bool(false), RV::Bool(true)),
+        BinOp::Sub | BinOp::Div | BinOp::Mod => (RV::Int(7), RV::Int(2)),
+        _ => (RV::Int(2), RV::Int(3)),
+    };
+    let src = format!("{} {} {} {} {}", NAMES[n], asg_sym(Some(op)), l.literal().unwrap(), op.sym(), r.literal().unwrap());
+    let ast = Ast::Asg(Some(op), NAMES[n].into(), Box::new(Ast::Bin(op, Box::new(lit_ast(&l)), Box::new(lit_ast(&r)))));
+    (src, ast)
+}
+
 fn act_show(a: &Act) -> String {
     let vals = values();
     let rhs = rhs_values();
@@ -81,6 +98,7 @@ fn act_show(a: &Act) -> String {
         Act::SetValue(n, v) => format!("set_value({}, {})", NAMES[*n], vals[*v].key()),
         Act::Assign(n, v) => format!("eval `{} = {}`", NAMES[*n], vals[*v].literal().unwrap_or_default()),
         Act::OpAssign(n, o, v) => format!("eval `{} {} {}`", NAMES[*n], asg_sym(Some(ASSIGN_BINOPS[*o])), rhs[*v].literal().unwrap_or_default()),
+        Act::OpAssignCompound(n, o) => format!("eval `{}`", compound_source(*n, *o).0),
         Act::Copy(n, m) => format!("eval `{} = {}`", NAMES[*n], NAMES[*m]),
         Act::AssignUnbound(n) => format!("eval `{} = {}`", NAMES[*n], NEVER_BOUND),
         Act::ClearVariables => "clear_variables()".into(),
@@ -108,6 +126,7 @@ fn all_actions(with_opassign: bool) -> Vec<Act> {
                 for r in 0..rhs_values().len() {
                     v.push(Act::OpAssign(n, o, r));
                 }
+                v.push(Act::OpAssignCompound(n, o));
             }
         }
         for m in 0..NAMES.len() {
@@ -138,6 +157,7 @@ fn reduced_actions() -> Vec<Act> {
         .into_iter()
         .filter(|a| match a {
             Act::OpAssign(_, o, _) => matches!(ASSIGN_BINOPS[*o], BinOp::Add | BinOp::Div | BinOp::And),
+            Act::OpAssignCompound(_, o) => matches!(ASSIGN_BINOPS[*o], BinOp::Sub | BinOp::Or),
             _ => true,
         })
         .collect()
@@ -336,6 +356,14 @@ fn apply(real: &mut HCtx, model: &mut RCtx, act: &Act) -> (Option<String>, u32) 
                 Err(RErr::Class(crate::refmodel::ops::ErrClass::Arith)) => flags |= G_ARITH_ERROR,
                 Ok(_) => flags |= G_OPASSIGN_STORED,
                 _ => {},
+            }
+            d
+        },
+        Act::OpAssignCompound(n, o) => {
+            let (src, ast) = compound_source(*n, *o);
+            let (d, m) = eval_both(real, model, src, ast);
+            if m.is_ok() {
+                flags |= G_OPASSIGN_STORED;
             }
             d
         },
@@ -806,7 +834,7 @@ pub fn run(cfg: &Cfg) -> Report {
     Report {
         property: ID,
         level: "model_checking",
-        rule: format!("explicit-state breadth-first search (stateright) from the empty context; a state is the real HashMapContext paired with the abstract map model, merged by (sorted observation of the real context, model); every transition calls the real API on a clone (set_value; `n = lit`; `n op= lit` for the 8 op-assign operators x one right-hand side per type; `n = m`; `n = unbound`; clear_variables / clear_functions / clear; set_function; builtin switch; clone-and-continue) over names {{a, b}} (+ never-bound c), 15 values (ints 1, 2; floats 1.5, 1.0, 0.0, -0.0, NaN; strings `s` and `a` (the latter spells a variable name); two booleans; tuples of length 0/1/2; Empty); after every transition the return value and the complete observation (get_value of every name, both listings, call_function of every function name, builtin switch, reads through eval_with_context) are compared with the model, and the parent state must be unchanged. Closed sub-machine to closure; with op-assign inside a magnitude box (|int| <= 8, strings <= 3 bytes, closed float set): transitions leaving the box are executed and checked but not expanded; plus all unmerged histories of depth {depth} over the full action alphabet; plus scaling families: contexts with n variables of cycling types (set, listed, looked up, retyped, cloned, cleared) and n rounds of op-assigns on one variable, n in 1..20 and up to 129 / 1..40 and up to 400. Non-trivial/distinct = unique abstract states"),
+        rule: format!("explicit-state breadth-first search (stateright) from the empty context; a state is the real HashMapContext paired with the abstract map model, merged by (sorted observation of the real context, model); every transition calls the real API on a clone (set_value; `n = lit`; `n op= lit` for the 8 op-assign operators x one right-hand side per type; `n op= lit op lit` with the operator's own base operator on the right-hand side; `n = m`; `n = unbound`; clear_variables / clear_functions / clear; set_function; builtin switch; clone-and-continue) over names {{a, b}} (+ never-bound c), 15 values (ints 1, 2; floats 1.5, 1.0, 0.0, -0.0, NaN; strings `s` and `a` (the latter spells a variable name); two booleans; tuples of length 0/1/2; Empty); after every transition the return value and the complete observation (get_value of every name, both listings, call_function of every function name, builtin switch, reads through eval_with_context) are compared with the model, and the parent state must be unchanged. Closed sub-machine to closure; with op-assign inside a magnitude box (|int| <= 8, strings <= 3 bytes, closed float set): transitions leaving the box are executed and checked but not expanded; plus all unmerged histories of depth {depth} over the full action alphabet; plus scaling families: contexts with n variables of cycling types (set, listed, looked up, retyped, cloned, cleared) and n rounds of op-assigns on one variable, n in 1..20 and up to 129 / 1..40 and up to 400. Non-trivial/distinct = unique abstract states"),
         nontrivial_set: "counter:nontrivial-distinct",
         exhaustive: true,
         bound_completed: format!("closed machine: closure; boxed machine: {}; unmerged histories: depth {}", match cfg.tier { Tier::Quick => "depth 3", Tier::Thorough => "fixpoint of the box" }, depth),
